@@ -17,7 +17,7 @@ fn leaf(script: &[Step]) -> ChildSpec {
 }
 
 fn comb_case(family: Family, container: Container, children: Vec<ChildSpec>) -> Case {
-    Case { root: CombSpec { family, container, children, variant: 0 }, schedule: vec![], drain: vec![0; 8], no_drain: false, fair_polls: 0, post_polls: 0, storm: false, unwind_drop: false }
+    Case { root: CombSpec { family, container, children, variant: 0 }, schedule: vec![], drain: vec![0; 8], no_drain: false, fair_polls: 0, post_polls: 0, storm: false, unwind_drop: false, repoll_after_panic: false }
 }
 
 fn comb(prop: &'static str, name: &str, case: Case) -> Regress {
@@ -75,11 +75,94 @@ pub fn cases(prop: &str, tier: Tier) -> Vec<Regress> {
                             schedule: vec![],
                             drain: vec![0; 8],
                             no_drain: false,
+                            endless: false,
                         };
                         v.push(co("C15", format!("F2-{:?}-{}-{:?}", source, sname, terminal), case));
                     }
                 }
             }
+            // F3: collect() must not pre-allocate by the UPPER bound of the size hint:
+            // (0, Some(usize::MAX)) is an honest hint of any stream, and the exact one of
+            // a long range of which take(n) uses three items
+            for (sname, stack) in [
+                ("collect", vec![]),
+                ("enumerate", vec![Adapter::Enumerate]),
+                ("take2", vec![Adapter::Take(2)]),
+                ("map.limit1", vec![Adapter::Map, Adapter::Limit(1)]),
+            ] {
+                let n = 3;
+                let mut work: Vec<Vec<LeafSpec>> = stack.iter().map(|a| if *a == Adapter::Map { (0..n).map(|_| ready()).collect() } else { Vec::new() }).collect();
+                work.push(Vec::new());
+                let case = CoCase {
+                    source: SourceKind::Co,
+                    src_script: vec![Step::Yield(true); n],
+                    src_hint: 3,
+                    stack: stack.clone(),
+                    terminal: Terminal::CollectVec,
+                    work,
+                    schedule: vec![],
+                    drain: vec![0; 8],
+                    no_drain: false,
+                    endless: false,
+                };
+                v.push(co("C15", format!("F3-{}-source-with-huge-upper-bound", sname), case));
+            }
+            // F3, second manifestation: take(2) of a source that never ends and says so
+            for (sname, stack) in [("take2", vec![Adapter::Take(2)]), ("enumerate.take2", vec![Adapter::Enumerate, Adapter::Take(2)])] {
+                let n = 3;
+                let mut work: Vec<Vec<LeafSpec>> = stack.iter().map(|_| Vec::new()).collect();
+                work.push(Vec::new());
+                let case = CoCase {
+                    source: SourceKind::Co,
+                    src_script: vec![Step::Yield(true); n],
+                    src_hint: 0,
+                    stack: stack.clone(),
+                    terminal: Terminal::CollectVec,
+                    work,
+                    schedule: vec![],
+                    drain: vec![0; 8],
+                    no_drain: false,
+                    endless: true,
+                };
+                v.push(co("C15", format!("F3-{}-of-an-endless-source", sname), case));
+            }
+        }
+        "C02" => {
+            // a child's poll panics, the caller catches the panic and goes on
+            // polling: whatever the combinator does then, it must not hand out a
+            // value that no child produced, nor leak or double-drop anything
+            for container in [Container::Array, Container::Tuple] {
+                let mut case = comb_case(Family::Join, container, vec![leaf(&[Step::Later]), leaf(&[Step::Panic]), leaf(&[Step::Later, Step::Later])]);
+                case.repoll_after_panic = true;
+                v.push(comb("C02", &format!("join-{:?}-child-panics-caller-polls-on", container), case));
+            }
+            #[cfg(feature = "has-alloc")]
+            {
+                let mut case = comb_case(Family::Join, Container::Vec, vec![leaf(&[Step::Later]), leaf(&[Step::Panic]), leaf(&[Step::Later, Step::Later])]);
+                case.repoll_after_panic = true;
+                v.push(comb("C02", "join-Vec-child-panics-caller-polls-on", case));
+            }
+        }
+        #[cfg(feature = "with-co")]
+        "C14" => {
+            use crate::costream::{CoCase, SourceKind, Terminal};
+            // F3: collect::<Result<Vec<_>,_>>() must not pre-allocate by the UPPER bound of
+            // the size hint ((0, Some(usize::MAX)) is an honest hint of any stream)
+            let ready = || LeafSpec { script: vec![Step::Yield(true)], always: false, hint: 0, dropwake: false };
+            let n = 3;
+            let case = CoCase {
+                source: SourceKind::Co,
+                src_script: vec![Step::Yield(true); n],
+                src_hint: 3,
+                stack: vec![],
+                terminal: Terminal::CollectResult,
+                work: vec![(0..n).map(|_| ready()).collect()],
+                schedule: vec![],
+                drain: vec![0; 8],
+                no_drain: false,
+                endless: false,
+            };
+            v.push(co("C14", "F3-collect-result-source-with-huge-upper-bound".to_string(), case));
         }
         "C17" => {
             // rotation state that only goes wrong after very many polls (a
